@@ -98,16 +98,23 @@ def check(ctx: Ctx) -> str:
         src = ast.unparse(loop)
     first_match = False
     any_match = False
+    covers_class = False
     for n in ast.walk(loop):
         if isinstance(n, ast.If) and "isinstance(obj, typespec)" in ast.unparse(n.test):
             inner = n.body
-            if len(inner) == 1 and isinstance(inner[0], ast.Return) and ast.unparse(inner[0].value) == "attr in unsafe" and ast.unparse(n.test) == "isinstance(obj, typespec)":
+            tparts = {ast.unparse(v_) for v_ in (n.test.values if isinstance(n.test, ast.BoolOp) and isinstance(n.test.op, ast.Or) else [n.test])}
+            # the row matches an instance of the type, and (since 42dfe43) the type itself / a subclass
+            if len(inner) == 1 and isinstance(inner[0], ast.Return) and ast.unparse(inner[0].value) == "attr in unsafe" and "isinstance(obj, typespec)" in tparts and tparts <= {"isinstance(obj, typespec)", "isinstance(obj, type) and issubclass(obj, typespec)"}:
                 first_match = True
+                covers_class = "isinstance(obj, type) and issubclass(obj, typespec)" in tparts
             elif "attr in unsafe" in ast.unparse(n.test) or any(isinstance(x, ast.If) and ast.unparse(x.test) == "attr in unsafe" for x in inner):
                 any_match = True
     ctx.need(first_match or any_match, f"lookup loop shape of modifies_known_mutable not recognised: {src[:80]}")
     rets = astq.returns(fi.node)
     ctx.need(rets and ast.unparse(rets[-1].value) == "False", "modifies_known_mutable no longer ends with `return False`")
+    ctx.check(covers_class or any_match, "spec:unbound-methods", "sandbox:modifies_known_mutable", "mutating methods taken from the type are not covered",
+              "modifies_known_mutable matches instances only: the same methods are reachable unbound on the type, and `dict` is a default template global - `{{ dict.update(d, x=1) }}` / `{{ dict.clear(d) }}` modify a dict of the render data in the immutable sandbox; the row test must also accept `isinstance(obj, type) and issubclass(obj, typespec)`",
+              fi.loc())
 
     def simulate(tp: type, attr: str) -> bool:
         for tname, names, _ in spec:
